@@ -47,8 +47,36 @@ pub fn adapters_case(case: &Value, rep: &mut Report) {
     }
 }
 
-pub fn backend_case(case: &Value, _mode: &str, rep: &mut Report) {
+/// C20: the buffer of a cursor is shrunk through the accessor the API hands out (`buf_mut`), then the cursor is used again.
+/// Any result is acceptable except undefined behaviour (caught as an abort by the unsafe-precondition checks).
+fn shrink_case(case: &Value, buf: &[u32], pos: usize, rev: bool, rep: &mut Report) {
+    for k in 0..buf.len() {
+        let r = guarded(|| {
+            let mut c = Cursor::<u32, Vec<u32>>::new_at_pos(buf.to_vec(), pos).unwrap();
+            c.buf_mut().truncate(k);
+            if rev {
+                let mut b = Reverse(c);
+                let _ = WriteWords::write(&mut b, 7u32); let _ = ReadWords::<u32, Queue>::read(&mut b); let _ = ReadWords::<u32, Stack>::read(&mut b);
+                let _ = BoundedWriteWords::<u32>::space_left(&b);
+            } else {
+                let _ = ReadWords::<u32, Stack>::read(&mut c); let _ = ReadWords::<u32, Stack>::read(&mut c); let _ = ReadWords::<u32, Queue>::read(&mut c);
+                let _ = WriteWords::write(&mut c, 7u32);
+                let _ = c.seek(pos);
+                let mut c2 = Cursor::<u32, Vec<u32>>::new_at_pos(buf.to_vec(), pos).unwrap(); let _ = core::mem::take(c2.buf_mut()); let _ = ReadWords::<u32, Stack>::read(&mut c2);
+            }
+        });
+        rep.checks += 1; rep.class("buf_mut_shrink");
+        if let Err(m) = r { if is_ub_panic(&m) { rep.mismatch(case, format!("after buf_mut().truncate({}) on a cursor at pos {}: {}", k, pos, m)); } }
+    }
+}
+
+pub fn backend_case(case: &Value, mode: &str, rep: &mut Report) {
     if case["k"] == "adapters" { adapters_case(case, rep); return; }
+    if mode == "c20" && case["kind"] != "vec" {
+        let buf: Vec<u32> = case["buf"].as_array().unwrap().iter().map(|x| x.as_u64().unwrap() as u32).collect();
+        set_thread_case(usize::MAX - 1, &case.to_string());
+        shrink_case(case, &buf, case["pos"].as_u64().unwrap() as usize, case["kind"] == "rev", rep);
+    }
     let kind = case["kind"].as_str().unwrap();
     let buf: Vec<u32> = case["buf"].as_array().unwrap().iter().map(|x| x.as_u64().unwrap() as u32).collect();
     let pos = case["pos"].as_u64().unwrap() as usize;
